@@ -602,6 +602,10 @@ func (ex *Exec) sprintf(fr *frame, format *Str, args *Slice) *Str {
 // '%' prints "%!(NOVERB)". Flags, widths and remaining operands after a symbolic
 // '%' are not modelled (the path is abandoned as unsupported).
 func (ex *Exec) sprintfSym(fr *frame, format *Str, args *Slice) *Str {
+	if args.Len > 0 {
+		// a caller-supplied format WITH operands (Privmsgf and friends): any text may result
+		return ex.freshText("sprintf", false).(*Str)
+	}
 	isByte := func(t *Term, c byte) bool {
 		if t.Op == OConst {
 			return byte(t.Val) == c
